@@ -928,7 +928,7 @@ class Session:
                 c.cacheMinimize()     # leave only ghosts behind: pooled connections get paired anew
                 c.close()
 
-    def load_phase(self, keys, variant, missing=False):
+    def load_phase(self, keys, variant, missing=False, reimport=False):
         ktxt = ','.join('%d:%s' % (d, o.hex()) for d, o in keys)
         lenv = 'lenv %s %s' % (','.join(map(str, range(self.ndb))),
                                ','.join(map(str, GONE_IDS)) if missing else '-')
@@ -959,6 +959,8 @@ class Session:
             try:
                 if missing:
                     c14_classes.hide_gone()
+                elif reimport:
+                    c14_classes.importable_gone()     # back on the path, not (yet) in sys.modules
                 if self.ndb > 1:
                     # own DB objects: a connection of d1 opened as primary keeps its d0 partner for ever
                     # (Connection.connections), and would bring it along when it is later handed out as
@@ -972,7 +974,7 @@ class Session:
                 else:
                     self.weak_deref(dbs, keys)
                 c = dbs[0].open(transaction_manager=transaction.TransactionManager())
-                res = [self.real_walk(c, keys) + (None if missing else self.args_seen,)]
+                res = [self.real_walk(c, keys) + (None if missing or reimport else self.args_seen,)]
                 c.transaction_manager.abort()
                 c.close()
             finally:
@@ -1055,6 +1057,9 @@ class Session:
         if any(v[0] in GONE_IDS for v in self.expect.values()):
             # classes gone: placeholders keep the state; reference extraction needs no class
             self.load_phase(keys, 'fresh-missing', missing=True)
+            # ... and once the classes can be imported again (nobody has imported them yet), a new
+            # connection loads the real classes with the stored state
+            self.load_phase(keys, 'fresh-reimport', reimport=True)
             c14_classes.hide_gone()
             try:
                 for k, data in sorted(allrecs.items()):
